@@ -3,7 +3,7 @@
    The interpreter is model/Script.v (eval_script_state = EvalScript).  In every theorem the hash functions
    (sha256 ripemd160 sha1), the flags fl, the signature/locktime checker ck and the sigversion sv are arbitrary. *)
 From BV Require Import lib.Ints gen.Params_gen model.Script model.ScriptVerify
-  proofs.ScriptNumLemmas proofs.ScriptLemmas proofs.ScriptInvLemmas proofs.ScriptOpLemmas proofs.ScriptCondLemmas proofs.ScriptMultisigLemmas.
+  proofs.ScriptNumLemmas proofs.ScriptLemmas proofs.ScriptInvLemmas proofs.ScriptOpLemmas proofs.ScriptCondLemmas proofs.ScriptMultisigLemmas proofs.ScriptTaprootLemmas.
 Local Open Scope Z_scope.
 
 (* ---- CScriptNum ---- *)
@@ -214,8 +214,8 @@ Print Assumptions C12_condition_stack_is_a_stack_of_booleans.
 
 (* VerifyScript rules (model/ScriptVerify.v): BIP16 P2SH and SIGPUSHONLY need a push-only scriptSig; CLEANSTACK on a plain output
    leaves exactly one, true, element; a native witness program needs an empty scriptSig. *)
-Theorem C12_verifyscript_rules : forall sha256 ripemd160 sha1 fl ck scriptSig scriptPubKey witness,
-  verify_script sha256 ripemd160 sha1 fl ck scriptSig scriptPubKey witness = Some (Ok tt) ->
+Theorem C12_verifyscript_rules : forall sha256 ripemd160 sha1 fl ck tap_commit scriptSig scriptPubKey witness,
+  verify_script sha256 ripemd160 sha1 fl ck tap_commit scriptSig scriptPubKey witness = Some (Ok tt) ->
   (has fl SCR_FLAG_P2SH = true -> is_pay_to_script_hash scriptPubKey = true -> is_push_only scriptSig = true) /\
   (has fl SCR_FLAG_SIGPUSHONLY = true -> is_push_only scriptSig = true) /\
   (has fl SCR_FLAG_CLEANSTACK = true -> witness_program scriptPubKey = None -> is_pay_to_script_hash scriptPubKey = false ->
@@ -223,7 +223,7 @@ Theorem C12_verifyscript_rules : forall sha256 ripemd160 sha1 fl ck scriptSig sc
                     eval sha256 ripemd160 sha1 fl ck SV_BASE scriptPubKey s1 = Ok [top] /\ cast_to_bool top = true) /\
   (forall ver prog, has fl SCR_FLAG_WITNESS = true -> witness_program scriptPubKey = Some (ver, prog) -> scriptSig = []).
 Proof.
-  intros sha256 ripemd160 sha1 fl ck ssig spk wit H. repeat split; intros.
+  intros sha256 ripemd160 sha1 fl ck tap_commit ssig spk wit H. repeat split; intros.
   - eapply p2sh_requires_pushonly; eauto.
   - eapply sigpushonly_requires_pushonly; eauto.
   - eapply cleanstack_one_element; eauto.
@@ -240,6 +240,48 @@ Theorem C12_checkmultisig_matching_spec : forall fl ck sv code keys sigs,
   exists b, multisig_loop fl ck sv code keys sigs = Ok b /\ (b = true <-> matches ck sv code keys sigs).
 Proof. intros fl ck sv code keys sigs Hs Hk. apply multisig_loop_spec. split; assumption. Qed.
 Print Assumptions C12_checkmultisig_matching_spec.
+
+(* Tapscript (ExecuteWitnessScript with SigVersion::TAPSCRIPT; has_op_success script = some instruction that parses is an
+   OP_SUCCESSx).  OP_SUCCESSx overrides everything: for EVERY witness stack (any number of elements, of any sizes) and
+   whatever follows in the script, the spend succeeds at once, or fails with DISCOURAGE_OP_SUCCESS under that policy flag. *)
+Theorem C12_op_success_overrides_everything : forall sha256 ripemd160 sha1 fl ck stack script w,
+  has_op_success script = true ->
+  execute_witness_script sha256 ripemd160 sha1 fl ck SV_TAPSCRIPT stack script w =
+    if has fl SCR_FLAG_DISCOURAGE_OP_SUCCESS then Err SE_DISCOURAGE_OP_SUCCESS else Ok tt.
+Proof. exact op_success_overrides_everything. Qed.
+Print Assumptions C12_op_success_overrides_everything.
+
+(* Otherwise the limits are enforced before anything is executed: an unparsable script is BAD_OPCODE, more than MAX_STACK_SIZE
+   initial elements is STACK_SIZE, an element above MAX_SCRIPT_ELEMENT_SIZE is PUSH_SIZE (in this order). *)
+Theorem C12_tapscript_limits_without_op_success : forall sha256 ripemd160 sha1 fl ck stack script w,
+  has_op_success script = false ->
+  (snd (parse_script script) = false -> execute_witness_script sha256 ripemd160 sha1 fl ck SV_TAPSCRIPT stack script w = Err SE_BAD_OPCODE) /\
+  (snd (parse_script script) = true -> lenz stack > MAX_STACK_SIZE ->
+     execute_witness_script sha256 ripemd160 sha1 fl ck SV_TAPSCRIPT stack script w = Err SE_STACK_SIZE) /\
+  (snd (parse_script script) = true -> lenz stack <= MAX_STACK_SIZE -> existsb (fun e => lenz e >? MAX_SCRIPT_ELEMENT_SIZE) stack = true ->
+     execute_witness_script sha256 ripemd160 sha1 fl ck SV_TAPSCRIPT stack script w = Err SE_PUSH_SIZE).
+Proof. intros s r h fl ck. exact (tapscript_limits_without_op_success s r h fl ck (fun _ _ _ => true)). Qed.
+Print Assumptions C12_tapscript_limits_without_op_success.
+
+(* A taproot script-path spend (witness = args, script, control block [, annex]) under SCRIPT_VERIFY_TAPROOT with a control
+   block of a legal size (33 + 32m, m <= 128) whose commitment checks out (oracle tap_commit) and whose leaf version is 0xc0 is
+   decided by ExecuteWitnessScript on the arguments, with validation weight = serialized witness size + 50; hence with an
+   OP_SUCCESSx in the leaf it succeeds for every argument list. *)
+Theorem C12_taproot_script_path_dispatch : forall sha256 ripemd160 sha1 fl ck tap_commit control script args prog annex,
+  has fl SCR_FLAG_TAPROOT = true -> control_size_ok (lenz control) = true -> tap_commit control prog script = true ->
+  leaf_is_tapscript control = true -> (match annex with Some a => is_annex a = true | None => True end) ->
+  let wstack := (match annex with Some a => [a] | None => [] end) ++ control :: script :: args in
+  verify_taproot sha256 ripemd160 sha1 fl ck tap_commit wstack prog =
+    execute_witness_script sha256 ripemd160 sha1 fl ck SV_TAPSCRIPT args script (witness_serialize_size wstack + SCR_VALIDATION_WEIGHT_OFFSET) /\
+  (has_op_success script = true -> has fl SCR_FLAG_DISCOURAGE_OP_SUCCESS = false ->
+   verify_taproot sha256 ripemd160 sha1 fl ck tap_commit wstack prog = Ok tt).
+Proof.
+  intros sha256 ripemd160 sha1 fl ck tap_commit control script args prog annex HT Hs Hc Hl Ha. cbv zeta.
+  pose proof (taproot_script_path sha256 ripemd160 sha1 fl ck tap_commit control script args prog annex HT Hs Hc Hl Ha) as H.
+  cbv zeta in H. split; [exact H|]. intros Hos Hd. eapply eq_trans; [exact H|].
+  rewrite (op_success_overrides_everything sha256 ripemd160 sha1 fl ck _ _ _ Hos). unfold op_success_verdict. rewrite Hd. reflexivity.
+Qed.
+Print Assumptions C12_taproot_script_path_dispatch.
 
 (* FindAndDelete leaves the script unchanged when the pattern does not occur at an instruction boundary *)
 Theorem C12_find_and_delete_nothing_found : forall script b r, find_and_delete script b = (r, 0) -> r = script.
